@@ -1374,6 +1374,12 @@ fn gen_c04(o: &mut Out, r: &mut Rng, d: &GDict, tier: &str) {
     // the environment of the process (terminal width, locale) must not make decoding or displaying fail
     for (name, value) in [("COLUMNS", "63"), ("COLUMNS", "64"), ("COLUMNS", "67"), ("COLUMNS", "71"), ("COLUMNS", "40"), ("COLUMNS", "3"), ("COLUMNS", "0"), ("COLUMNS", "wide"), ("LANG", "C"), ("LANG", "en_US"), ("LC_ALL", "POSIX"), ("LC_CTYPE", "de_DE@euro"), ("NO_COLOR", "1"), ("TERM", "dumb"), ("TZ", "America/New_York"), ("RUST_LOG", "trace")] {
         o.case(&format!("environment {}={}", name, value));
+        // (of the locale variables the first that is set counts: the others are taken away for good)
+        if name == "LANG" || name == "LC_ALL" || name == "LC_CTYPE" {
+            for other in ["LC_ALL", "LC_CTYPE", "LANG", "LC_MESSAGES", "LANGUAGE"] {
+                o.line(&format!("env {} -", other));
+            }
+        }
         o.line(&format!("env {} {}", name, value));
         for _ in 0..(if thorough { 200 } else { 12 }) {
             let m = message(r, d, 5, 3);
@@ -2836,7 +2842,9 @@ fn gen_c11(o: &mut Out, r: &mut Rng, d: &GDict, tier: &str) {
                 };
                 let sends: Vec<String> = (0..n).map(|i| format!("{}:{}", ids[i], lens[i])).collect();
                 o.case(&format!("client n={} eager={} expect=all silent={}", n, eager as u8, (variant % 3 != 0) as u8));
-                o.line(&format!("cli {} {} {} {} -", sends.join(","), rd.join(","), wr, ans.join(",")));
+                // (every fourth time the client object itself is dropped right after the sends - a helper that returns only
+                // the futures: the connection, its reader and the futures live on, every answer still arrives)
+                o.line(&format!("cli {} {} {} {} {}", sends.join(","), rd.join(","), wr, ans.join(","), if variant % 4 == 1 { "D" } else { "-" }));
             }
         }
     }
